@@ -6,5 +6,23 @@ claim("C09",
   "Not decided: which wait status the kernel produces for a program; runprog's later re-classification. Trusted: go/types+go/ssa, the reference table (property statement; README cross-checked).",
   "DESIGN.md §4 C09")
 
-for pid in ["C01","C02","C03","C04","C05","C06","C07","C08","C10","C11","C12","C13","C14","C15","C16","C17","C18","C19","C20"]:
+claim("C04",
+  "E1 guard-formula analysis of the forked child: control-dependence path conditions per raw syscall, exhaustive truth-table enumeration over all configuration atoms",
+  "Decides, for ALL combinations of launch options (every truth assignment of the configuration predicates the child branches on), presence/multiplicity/order/constant arguments and failure disposition of: capability drop, no_new_privs, seccomp load, setgroups/setgid/setuid, setsid/TIOCSCTTY, chdir/sethostname/setdomainname, the clone flag word and vfork condition, id-map order, and that the three callers set the fields attributed to them. The launch sequence is one function whose behaviour per configuration is visible in its control flow; the tests launch four configurations.",
+  "Not decided: that the kernel honours each call; capability bounding set; clone-flag bits outside UnshareFlags. Atoms are branch predicates on Runner fields; E1 assumes (and C06 rule 1 checks) that the child never writes the configuration. Trusted: go/ssa, constant tables of syscall and x/sys/unix.",
+  "DESIGN.md §2 E1, §4 C04")
+
+claim("C06",
+  "who-may-write over SSA stores; const-arg and sibling skip-loop rules on E1 events; typed comparison rule; close-on-exec site rules",
+  "Decides structural necessary conditions of the descriptor shuffle: no store through the caller's configuration or package variables in the launch code, O_CLOEXEC on every scratch duplicate and flags 0 on every final one, skip loops over each live reserved descriptor before every scratch allocation, signed scratch-base computation on a fresh copy, exactly one action per slot in pass 2, and close-on-exec on every internal or received descriptor. These are visible in the code for all inputs; the tests use one fixed 3-entry list.",
+  "Not decided: the complete value-level case analysis of the two-pass shuffle (all relative orders of list entries, pipe and exec descriptor); identity of open file descriptions.",
+  "DESIGN.md §4 C06")
+
+claim("C07",
+  "E1 guard formulas (child) + control-dependence formulas (parent) with truth-table enumeration; must-pass-through to the kill+reap helper; table check of error locations",
+  "Decides for all configurations: exactly one checked sync write/read pair iff a callback is configured, ordered before exec/ptrace/post-sync steps, both result words tested; the parent invokes the callback only after a good ready word with the clone result, acknowledges only on nil, is the only other writer of the channel besides the id-map word; every error return after a successful clone passes through SIGKILL+wait4(EINTR-retried); every failure edge names a declared, named ErrorLocation; the container relays the right pid. Failure injection at every step is a statement about every failure edge, which is visible statically.",
+  "Not decided: that the pid still designates the process (kernel pid semantics), pid-namespace translation. Trusted: go/ssa; kernel read/write semantics on a socketpair.",
+  "DESIGN.md §4 C07")
+
+for pid in ["C01","C02","C03","C05","C08","C10","C11","C12","C13","C14","C15","C16","C17","C18","C19","C20"]:
     na(pid, "check under construction in this session (design in DESIGN.md section 4); not yet claimed")
